@@ -28,6 +28,9 @@ def judge(case) -> Verdict:
 
     acl_case, skip = case["acl"], case.get("skip")
     G.validate_acl(acl_case)
+    acl_case = dict(acl_case, items=list(acl_case["items"]))
+    if not G.groups_consistent(acl_case["items"]):
+        raise Invalid()  # one group name = one member list (the ACL text only carries the name)
     if skip not in A.SKIPS:
         raise Invalid()
     platform = acl_case["platform"]
@@ -41,6 +44,47 @@ def judge(case) -> Verdict:
         raise Invalid()
     text_before = acl.line
     v = Verdict()
+    edits = case.get("edits") or []
+    if edits:
+        # history: a shadow query, then the member list of a group address is edited IN PLACE, then the
+        # removal - everything below is judged against the CURRENT members
+        acl.shading(skip)
+        acl.shadow_of(skip)
+        gnames = sorted({it["rec"][side]["n"] for it in acl_case["items"] if it["t"] == "ace" for side in ("src", "dst")
+                         if it["rec"][side]["k"] == "group"})
+        done = 0
+        for pick, how, arg in edits:
+            if not gnames:
+                break
+            gname = gnames[pick % len(gnames)]
+            new = [arg[0] & ~arg[1] & R.ALL1, arg[1]]
+            if len(R.nc_bits(new[1])) > 3:
+                raise Invalid()
+            # the group changes: every address that references it is edited the same way
+            for i, it in enumerate(acl_case["items"]):
+                if it["t"] != "ace":
+                    continue
+                for side in ("src", "dst"):
+                    rec = acl_case["items"][i]["rec"]
+                    if rec[side]["k"] != "group" or rec[side]["n"] != gname:
+                        continue
+                    addr = before_objs[i].srcaddr if side == "src" else before_objs[i].dstaddr
+                    mem = [list(m) for m in rec[side].get("m") or []]
+                    if how == "append":
+                        addr.items.append(type(addr)(f"{R.int2ip(new[0])} {R.int2ip(new[1])}", platform=platform))
+                        mem.append(new)
+                    elif how == "pop" and mem:
+                        addr.items.pop()
+                        mem.pop()
+                    elif how == "line" and mem:
+                        addr.items[0].line = f"{R.int2ip(new[0])} {R.int2ip(new[1])}"
+                        mem[0] = new
+                    else:
+                        continue
+                    done += 1
+                    acl_case["items"][i] = dict(acl_case["items"][i], rec=dict(rec, **{side: dict(rec[side], m=mem)}))
+        if done:
+            v.label("member-edit-after-query")
     report = acl.shading(skip)
     if acl.line != text_before:
         v.fail("shading-mutates-acl", {"before": text_before, "after": acl.line})
@@ -127,7 +171,11 @@ def judge(case) -> Verdict:
 def case_st(draw, tier):
     acl = draw(G.acl_st(min_items=3, max_items=12, kmax=3, groups=True, members=True, seqs=True, empty_sets=True, native=True,
                         multi=True))
-    return {"acl": acl, "skip": draw(st.sampled_from(A.SKIPS))}
+    case = {"acl": acl, "skip": draw(st.sampled_from(A.SKIPS))}
+    if draw(st.sampled_from([True, False, False])):
+        case["edits"] = [[draw(st.integers(0, 9)), draw(st.sampled_from(["append", "pop", "pop", "line"])),
+                          [draw(G.base_st()), draw(G.wildmask_st(2))]] for _ in range(draw(st.integers(1, 3)))]
+    return case
 
 
 SUBS = [Sub("delete", judge, strategy=case_st, quick=3000, thorough=40000, shards_thorough=48)]
